@@ -444,6 +444,17 @@ func c07Run(c *core.Ctx) {
 				Want:  [][]string{{"e1=" + na, "e2=dflt", "e3="}}}, fmt.Sprintf("%d|default", ci)) {
 				return
 			}
+			// LF delimiter: a CR right before it is part of the terminator - unless it is escaped: the release
+			// character makes the next rune literal, so "x?\r\n" carries the value "x\r"
+			if cfg.Seg == "\n" && !cfg.IgnoreCRLF && cfg.Rel != "" && !strings.ContainsAny(cfg.Rel, "\r\n") {
+				plain := cfg.encode(seg, "")
+				esc := plain + cfg.Rel + "\r" + cfg.Seg
+				if !try(c07Case{Cfg: cfgb, Input: []byte(esc), Family: "escaped-cr-before-lf-delimiter",
+					Decls: []c07Decl{{Name: "e1", Index: 1}},
+					Want:  [][]string{{"e1=" + norm(a) + "\r"}}}, fmt.Sprintf("%d|escaped-cr", ci)) {
+					return
+				}
+			}
 			if !try(c07Case{Cfg: cfgb, Input: []byte(in), Family: "missing-without-default", Fatal: true,
 				Decls: []c07Decl{{Name: "e1", Index: 1}, {Name: "e2", Index: 2}}}, fmt.Sprintf("%d|nodefault", ci)) {
 				return
